@@ -51,6 +51,24 @@ Section G.
                           (map (fun e => edge_w (gspec f) (eshape e)) (edges_from g0 x))
     end.
 
+  (* acceptance: which nodes weight assignment gets through without an error (no cycles assumed) — a relation
+     or operator that needs operands has an edge; every edge leads to a type, a wildcard, or an accepted node
+     whose weight map is not empty; an intersection keeps at least one type *)
+  Definition needs_edges (k : rule_kind) : bool := match k with RNone => false | _ => true end.
+  Definition is_nil {A} (l : list A) : bool := match l with [] => true | _ => false end.
+
+  Fixpoint accepts (fuel : nat) (x : str) : bool :=
+    match fuel with
+    | O => false
+    | S f =>
+        let k := kind_of (n_type (node_of g0 x)) (n_label (node_of g0 x)) in
+        let es := edges_from g0 x in
+        (negb (needs_edges k) || negb (is_nil es)) &&
+        forallb (fun e => is_terminal (n_type (node_of g0 (e_to e))) ||
+                          (accepts f (e_to e) && negb (is_nil (gspec f (e_to e))))) es &&
+        match k with REnforce => negb (is_nil (gspec (S f) x)) | _ => true end
+    end.
+
   (* wildcard list of an edge: the public type of a wildcard target, nothing for a type, the target's list otherwise *)
   Definition edge_wild (rec : str -> list str) (sh : eshape_t) : list str :=
     let '(_, to, _) := sh in
@@ -120,4 +138,9 @@ Definition dag_check (g : wgraph) : bool :=
 
 (* the specification with the rank computed from the graph itself *)
 Definition spec_weights (g : wgraph) (x : str) : wmap := gspec g (S (rank_fn (heights g) x)) x.
+Definition spec_accepts (g : wgraph) (x : str) : bool :=
+  is_terminal (n_type (node_of g x)) || accepts g (S (rank_fn (heights g) x)) x.
+(* the fuel AssignWeights gives itself (2 * #nodes + 2) covers every node: heights do not exceed #nodes *)
+Definition fuel_check (g : wgraph) : bool :=
+  forallb (fun p : str * nat => (snd p <=? length (g_nodes g))%nat) (heights g).
 Definition spec_wildcards (g : wgraph) (x : str) : list str := wild_spec g (S (rank_fn (heights g) x)) x.
